@@ -51,8 +51,8 @@ impl SocketSend for ReqSocket {
         // items from queue. So in such case we'll just pop item and skip it if
         // we don't have a matching peer in peers map
         loop {
-            let (next_peer_id, registration) = match self.backend.round_robin.pop() {
-                Some(peer) => peer,
+            let turn = match crate::backend::RoundRobinTurn::next(&self.backend.round_robin) {
+                Some(turn) => turn,
                 None => {
                     return Err(ZmqError::ReturnToSender {
                         reason: "Not connected to peers. Unable to send messages",
@@ -62,13 +62,14 @@ impl SocketSend for ReqSocket {
             };
             #[cfg(feature = "verif-hooks")]
             crate::verif_hooks::yield_point("req.send.after_pop").await;
-            if let Some(mut peer) = self.backend.peers.get_async(&next_peer_id).await {
-                if peer.registration != registration {
+            if let Some(mut peer) = self.backend.peers.get_async(turn.peer_id()).await {
+                if peer.registration != turn.registration() {
+                    turn.discard();
                     continue;
                 }
-                self.backend
-                    .round_robin
-                    .push((next_peer_id.clone(), registration));
+                let next_peer_id = turn.peer_id().clone();
+                // Dropping the turn puts it back at the end of the queue.
+                drop(turn);
                 message.push_front(Bytes::new());
                 let sent = peer.send_queue.send(Message::Message(message)).await;
                 drop(peer);
@@ -81,6 +82,7 @@ impl SocketSend for ReqSocket {
                 self.current_request = Some(next_peer_id);
                 return Ok(());
             }
+            turn.discard();
         }
     }
 }
